@@ -71,6 +71,22 @@ CLAIMED += [
      "technique": "Coq proof (append/prepare/decode invariants by induction over type trees, one-step refinement of a list-of-values spec, induction over histories) + per-step correspondence on real column objects (exhaustive short + random long histories, both builds)"},
 ]
 
+
+CLAIMED += [
+    {"id": "C02",
+     "text": "Client.Do's sender on the vectored writer equals a pure packet concatenation, and the reference server-side parser (Query, typed blocks, one verified frame per block, exact consumption) reads every client stream as exactly [Query; external data?; empty block; (input blocks; empty block)?] for all query records, revisions >= 54429 and the five compression modes; WriteColumn/WriteBlock carry EncodeColumn/EncodeBlock's bytes for every type tree.",
+     "note": COMMON_NOTE + "Premises: codec round trip, the 128 MiB frame limits, well-formed columns, identity inference step, an accepting connection; below revision 54429 (no server-side decoder in the library) the tie is byte equality between model and implementation.",
+     "technique": "Coq refinement (writer memory model to pure events) + round-trip composition (C17/C01/C05 lemmas) + differential run of the real Client.Do over a scripted connection parsed by the extracted model parser"},
+    {"id": "C09",
+     "text": "For every OnInput history (arbitrary overwrites of captured column memory, append / reset / overwrite, nil / EOF / wrapped EOF / error, initial rows zero or not) the wire is one Data packet per round holding the contents at the round's start, then exactly one terminator iff Do ends normally; nothing already sent depends on later mutations, with and without compression, zero-copy columns included.",
+     "note": COMMON_NOTE + "Column memory is modelled as slices named at chain time; aliasing between columns and the staging buffer is not modelled; write segmentation belongs to C14/C08. One defect repaired in /repo (cc55812).",
+     "technique": "Coq proof (induction over callback histories on the Writer.v memory model) + byte-exact correspondence of the real streamed INSERT with per-round snapshots"},
+    {"id": "C18",
+     "text": "Result blocks bind only to compatible targets: Results.DecodeResult / decodeAuto modelled with the state every target is left in; success characterised exactly (count, names equal or blank, Infer accepted, no type conflict, own bytes decoded); failures leave a bound prefix, one explained failing step and an untouched rest, never foreign data; names are sticky over any block sequence; inferable targets adopt only the server's parameters (16 theorems, closed).",
+     "note": COMMON_NOTE + "LoadLocation and ToLower are universally quantified; column decoders from C01; the failing target after a half decode is unspecified (masked); Tuple targets with inferable elements and Nullable/LowCardinality of DateTime64 mirror the library's quirks; no general nesting-independence theorem for adoption. Three defects repaired in /repo (dd6eb72, 0308afb, 7e6c4f7).",
+     "technique": "Coq proof (refinement of the shared block model, inductive specification of a successful bind, invariant over block sequences) + correspondence on ~11k generated schema/target pairs per run against real EncodeBlock/DecodeBlock in both builds"},
+]
+
 _PENDING = "check not built yet in this tree (construction order in DESIGN.md section 11); will be claimed once its props/ file compiles"
 NOT_APPLICABLE = [(i, _PENDING) for i in
-                  ["C02", "C03", "C04", "C09", "C10", "C12", "C18"]]
+                  ["C03", "C04", "C10", "C12"]]
